@@ -99,6 +99,7 @@ struct OptimOps {
     OpInst* opp = &op;
     smooth::MinimizeOptions opts;  // fresh per call: strategy state is not shared
     opts.max_iter = 25;
+    opts.verbose = (op.p[3] & 2) != 0 && (op.p[0] == 0 || op.p[0] == 5);  // progress output (stdout is /dev/null)
     switch (op.p[0]) {
       case 0: {
         G x = a;
